@@ -504,6 +504,8 @@ class Gen:
                                  ("Tuple", "tuple", 0.45), ("FnPtr", "fnptr", 0.45)):
                 if rng.random() < pr:
                     p.traits.append(Trait(name, wk=wk))
+            if not any(t.wk for t in p.traits):
+                p.traits.append(Trait("Sized", wk="sized"))
             if rng.random() < 0.3:
                 p.traits.append(Trait("Send", auto=True))
         if rng.random() < 0.5:
